@@ -9,6 +9,8 @@ import (
 	"encoding/json"
 	"flag"
 	"fmt"
+	"io"
+	"log"
 	"math/rand"
 	"os"
 	"sort"
@@ -160,6 +162,7 @@ func main() {
 		fmt.Fprintf(os.Stderr, "unknown property %q; have %v\n", prop, ids)
 		os.Exit(2)
 	}
+	log.SetOutput(io.Discard) // the code under test logs warnings per polygon
 	start := time.Now()
 	e := &env{tier: *tier, seed: *seed, rng: rand.New(rand.NewSource(*seed)), res: newResult(prop, *tier, *seed), replay: *replay, scale: *scale}
 	if *driver != "" {
